@@ -389,6 +389,36 @@ class SNum(Sym):
         return r == "unsat"
 
 
+class SInf(Sym):
+    """+infinity of the extended reals, for the one place numpy produces it on purpose: 0.0 ** negative.
+    Supports exactly: positive_constant * inf, inf + finite, finite / inf = 0."""
+
+    def __mul__(self, o):
+        if isinstance(o, (int, float, np.floating, np.integer)) and o > 0:
+            return self
+        raise Unsupported("inf * %r" % (o,))
+
+    __rmul__ = __mul__
+
+    def __add__(self, o):
+        if isinstance(o, (int, float, np.floating, np.integer, SNum)):
+            return self
+        raise Unsupported("inf + %r" % (o,))
+
+    __radd__ = __add__
+
+    def __rtruediv__(self, o):
+        return 0.0
+
+    def __repr__(self):
+        return "SInf"
+
+
+def _is_zero_term(e):
+    e = z3.simplify(e)
+    return (z3.is_rational_value(e) and e.numerator_as_long() == 0) or (z3.is_int_value(e) and e.as_long() == 0)
+
+
 class SSqrt(Sym):
     """sqrt(radicand) kept lazy: comparisons are squared; a value is materialised only on demand."""
 
@@ -456,6 +486,8 @@ class SSqrt(Sym):
     def __pow__(self, o):
         if o == 2:
             return SNum(self.rad)
+        if isinstance(o, (int, float, np.floating)) and o < 0 and _is_zero_term(self.rad):
+            return SInf()            # numpy: 0.0 ** negative = inf
         return self.value() ** o
 
     def __bool__(self):
@@ -715,7 +747,15 @@ def ufun(name, arity=1):
 
 def sx_fun(name, *args):
     f = ufun(name, len(args))
-    return SNum(f(*[zreal(a) for a in args]))
+    zs = [zreal(a) for a in args]
+    t = f(*zs)
+    if name == "exp":
+        c = ctx()
+        done = c.__dict__.setdefault("_exp_done", {})
+        if t.get_id() not in done:
+            done[t.get_id()] = t
+            c.assume(z3.And(t > 0, z3.Implies(zs[0] == 0, t == 1), z3.Implies(zs[0] <= 0, t <= 1), z3.Implies(zs[0] >= 0, t >= 1)))
+    return SNum(t)
 
 
 def sx_pow(a, b):
